@@ -279,7 +279,12 @@ func c08OneCell(c *Ctx, wd *c08World, srv *Srv, cell c08Cell, stopper func()) {
 	var releaseSeq int64
 	eofBeforeRelease := false
 	if clientStays && cell.Inflight == "parked" {
-		cn.SetReadDeadline(time.Now().Add(150 * time.Millisecond))
+		watch := 150 * time.Millisecond
+		if cell.Ending == "stop" {
+			// a server-initiated ending: hold the handlers well beyond any plausible internal grace period
+			watch = time.Duration(c.N(3500, 12000)) * time.Millisecond
+		}
+		cn.SetReadDeadline(time.Now().Add(watch))
 		buf := make([]byte, 4096)
 		for {
 			_, err := cn.Read(buf)
@@ -463,6 +468,26 @@ func c08RunWith(c *Ctx, writeEntries int) {
 		}
 		wg.Wait()
 	}
+	// every connection has ended but the long-lived servers are still running: apart from their accept loops no
+	// goroutine with a gldap frame may remain (a per-connection helper that outlives its connection is a leak even
+	// if it would exit at Stop)
+	var leaked []string
+	for dl := time.Now().Add(5 * time.Second); ; time.Sleep(10 * time.Millisecond) {
+		leaked = leaked[:0]
+		for _, g := range gldapGoroutines() {
+			if strings.Contains(g, "gldap.(*Server).Run(") && strings.Contains(g, ".Accept(") {
+				continue // the accept loop of a running server
+			}
+			leaked = append(leaked, g)
+		}
+		if len(leaked) == 0 || time.Now().After(dl) {
+			break
+		}
+	}
+	if len(leaked) > 0 {
+		c.Violate("goroutine belonging to an ended connection remains while the server keeps running", fmt.Sprintf("%d goroutines with gldap frames besides the accept loops", len(leaked)), map[string]any{"goroutines": trimDump(leaked, 3)})
+	}
+	c.Count("running_server_goroutine_dumps_checked", 1)
 	// quiescence: stop everything, then nothing of gldap may remain
 	for _, s := range servers {
 		s.StopWithin(patience)
